@@ -69,6 +69,10 @@ type Case struct {
 	Private   []PAttr `json:"private"`
 	Options   int     `json:"options"`
 	Whitelist int     `json:"whitelist"` // 0 none, 1 public only, 2 + private same case, 3 + private other case
+	// Refs: for every private attribute the ad also holds a PUBLIC attribute whose value is an expression
+	// that refers to it (IsClaimed = ClaimId =!= undefined); whitelisting or sending the public one must not
+	// drag the private one along
+	Refs bool `json:"refs,omitempty"`
 	Version   int     `json:"version"`   // index into versions
 	State     int     `json:"state"`     // 0 no key, 1 keyed encrypting, 2 keyed not encrypting
 	Salt      uint32  `json:"salt"`
@@ -137,6 +141,17 @@ func runCase(c Case) res {
 		}
 		if !canon && !strings.HasPrefix(p.Name, "_condor_priv") {
 			r.nontrivial = true
+		}
+	}
+	if c.Refs {
+		for i, p := range privs {
+			e, err := classad.ParseExpr(p.Name + " =!= undefined")
+			if err != nil {
+				continue
+			}
+			n := fmt.Sprintf("RefersTo%d", i)
+			ad.InsertExpr(n, e)
+			pubNames = append(pubNames, n)
 		}
 	}
 	cfg := &message.PutClassAdConfig{Options: message.PutClassAdOptions(c.Options), PeerVersion: versions[c.Version]}
@@ -243,12 +258,19 @@ func runCase(c Case) res {
 		mustWithhold := !optIn || (v2 && oldPeer)
 		inLogical := bytes.Contains(logical, []byte(cn))
 		nameInLogical := bytes.Contains(logical, []byte(ln+" ="))
+		nameVisible := bytes.Contains(visible, []byte(ln))
+		if c.Refs {
+			// a public attribute of this ad mentions the private NAME in its own expression (the caller's
+			// public data); what must not appear is the private attribute itself: "name = value"
+			nameInLogical = bytes.Contains(logical, []byte(ln+" = "))
+			nameVisible = bytes.Contains(visible, []byte(ln+" = "))
+		}
 		if mustWithhold {
 			if inLogical || bytes.Contains(visible, []byte(cn)) {
 				r.viol = fmt.Sprintf("value of private attribute %s was serialised although it must be withheld (optIn=%v oldPeer=%v v2=%v)", p.Name, optIn, oldPeer, v2)
 				return r
 			}
-			if nameInLogical || bytes.Contains(visible, []byte(ln)) {
+			if nameInLogical || nameVisible {
 				r.viol = fmt.Sprintf("name of private attribute %s occurs in the emitted bytes although it must be withheld (optIn=%v oldPeer=%v v2=%v)", p.Name, optIn, oldPeer, v2)
 				return r
 			}
@@ -376,7 +398,7 @@ func genName(t *rapid.T) string {
 
 func genCase(t *rapid.T) Case {
 	c := Case{Public: rapid.IntRange(0, 6).Draw(t, "public"), Options: rapid.IntRange(0, 63).Draw(t, "options"),
-		Whitelist: rapid.IntRange(0, 3).Draw(t, "whitelist"), Version: rapid.IntRange(0, 4).Draw(t, "version"),
+		Whitelist: rapid.IntRange(0, 3).Draw(t, "whitelist"), Refs: rapid.IntRange(0, 2).Draw(t, "refs") == 0, Version: rapid.IntRange(0, 4).Draw(t, "version"),
 		State: rapid.IntRange(0, 2).Draw(t, "state"), Salt: rapid.Uint32().Draw(t, "salt")}
 	if rapid.Bool().Draw(t, "forceOptIn") {
 		c.Options |= int(message.PutClassAdIncludePrivate)
@@ -446,7 +468,7 @@ func TestC09Exhaustive(t *testing.T) {
 			for ver := 0; ver < 5; ver++ {
 				for state := 0; state < 3; state++ {
 					for wl := 0; wl < 4; wl++ {
-						c := Case{Public: 2, Private: []PAttr{{Name: name}}, Options: opt, Version: ver, State: state, Whitelist: wl, Salt: uint32(opt*100 + ver)}
+						c := Case{Public: 2, Private: []PAttr{{Name: name}}, Options: opt, Version: ver, State: state, Whitelist: wl, Refs: (opt+ver+wl)%2 == 1, Salt: uint32(opt*100 + ver)}
 						r := runCase(c)
 						record(c, r)
 						report(c, r)
